@@ -225,6 +225,7 @@ pub struct Engine {
     div_log: Vec<(String, u32, u32)>,
     path_implied: Vec<(String, B, Vec<B>)>,
     stub_log: Vec<(String, u32, u32, u32, u32)>,
+    poly_stub_log: Vec<(Vec<(u32, u32)>, u32, u32)>,
     implied_true: std::collections::HashSet<B>,
     // across paths
     worklist: Vec<Vec<u8>>,
@@ -283,6 +284,7 @@ impl Engine {
             div_log: Vec::new(),
             path_implied: Vec::new(),
             stub_log: Vec::new(),
+            poly_stub_log: Vec::new(),
             implied_true: std::collections::HashSet::new(),
             worklist: Vec::new(),
             stats: Stats::default(),
@@ -1829,6 +1831,35 @@ pub fn stub_complex1(name: &str, re: Sym, im: Sym) -> Option<(Sym, Sym)> {
     Some((u, v))
 }
 
+/// Contract stub for an iterative polynomial root finder (Laguerre): when the stub `name` is in force the call returns an
+/// opaque complex number constrained only by the routine's contract - it is a root of the polynomial it was given
+/// (coefficients in ascending order) - and by the convention that its imaginary part is exactly zero or not tiny
+/// (|Im| > 2 eps |Re|), so that the caller's "snap to the real axis" test does not perturb it.
+pub fn stub_poly_root(name: &str, coeffs: &[(Sym, Sym)]) -> Option<(Sym, Sym)> {
+    let on = with(|e| e.concrete.is_none() && e.cfg.stubs.iter().any(|s| s == name));
+    if !on { return None; }
+    let k = with(|e| e.poly_stub_log.len());
+    let u = Sym::var(&format!("{}#{}.re", name, k));
+    let v = Sym::var(&format!("{}#{}.im", name, k));
+    // Horner over (re, im) pairs
+    let (mut pr, mut pi) = (Sym::lit(0.0), Sym::lit(0.0));
+    for (cr, ci) in coeffs.iter().rev() {
+        let (nr, ni) = (pr * u - pi * v + *cr, pr * v + pi * u + *ci);
+        pr = nr; pi = ni;
+    }
+    assume(eq(pr, Sym::lit(0.0)));
+    assume(eq(pi, Sym::lit(0.0)));
+    let tiny = Sym::lit(2.0) * Sym::lit(f64::EPSILON) * u.abs();
+    assume(B::or(vec![eq(v, Sym::lit(0.0)), lt(tiny, v.abs())]));
+    with(|e| { let cs: Vec<(u32, u32)> = coeffs.iter().map(|(a, b)| (e.id(*a), e.id(*b))).collect(); let (ui, vi) = (e.id(u), e.id(v)); e.poly_stub_log.push((cs, ui, vi)); });
+    Some((u, v))
+}
+
+/// Root-finder stub applications on this path: (coefficients handed over, returned root).
+pub fn poly_stub_calls() -> Vec<(Vec<(Sym, Sym)>, Sym, Sym)> {
+    with(|e| e.poly_stub_log.iter().map(|(cs, u, v)| (cs.iter().map(|(a, b)| (Sym::from_id(*a), Sym::from_id(*b))).collect(), Sym::from_id(*u), Sym::from_id(*v))).collect())
+}
+
 /// Stub applications made so far on this path: (name, argument re/im, result re/im).
 pub fn stub_calls() -> Vec<(String, Sym, Sym, Sym, Sym)> {
     with(|e| e.stub_log.iter().map(|(n, a, b, c, d)| (n.clone(), Sym::from_id(*a), Sym::from_id(*b), Sym::from_id(*c), Sym::from_id(*d))).collect())
@@ -2005,6 +2036,7 @@ pub fn explore(cfg: Config, body: &mut dyn FnMut()) -> Report {
             e.div_log.clear();
             e.path_implied.clear();
             e.stub_log.clear();
+            e.poly_stub_log.clear();
         });
         let r = panic::catch_unwind(AssertUnwindSafe(|| body()));
         match r {
